@@ -72,18 +72,19 @@ MUTATING = {
     "rustix::fs::at::renameat", "rustix::fs::at::symlinkat", "rustix::fs::at::linkat",
     SET_XATTR, "xattr::set", "xattr::FileExt::remove_xattr", IOCTL, COPY_FILE_RANGE, PWRITE, WRITE, WRITE_ALL,
 }
-# destructive path primitives (C03(c)/C08(c)): who may call them
+# destructive path primitives (C03(c)/C08(c)): who may call them. `fn@Variant` = only inside that arm of the
+# worker's dispatch on Operation (helpers reached only from there are followed)
 DESTRUCTIVE = {
     FILE_CREATE: {NEW, "libfs::common::copy_file"},
     "std::fs::OpenOptions::open": set(),
     "std::fs::File::create_new": set(),
     RENAME: {NEW},
-    REMOVE_FILE: {PF_WORKER, PB_DISPATCH},
+    REMOVE_FILE: {PF_WORKER + "@Special", PB_DISPATCH + "@Special"},
     "std::fs::remove_dir": set(), "std::fs::remove_dir_all": set(),
     "std::fs::write": set(), "std::fs::copy": set(), "std::fs::hard_link": set(),
     "std::fs::create_dir": set(),
     CREATE_DIR_ALL: {WALKER},
-    SYMLINK: {PF_WORKER, PB_DISPATCH},
+    SYMLINK: {PF_WORKER + "@Link", PB_DISPATCH + "@Link"},
     MKNODAT: {"libfs::linux::copy_node"},
     FTRUNCATE: {"libfs::common::allocate_file"},
     "std::fs::File::set_len": set(),
